@@ -79,6 +79,31 @@ BUILT = {
     text="Every combination of document, mode, input route (file / stdin pipe), output route (stdout / new file / in place), default or custom delimiters and tag names, offset, current instant, target source (none / flags / config file / both / file with empty line), TZ and locale runs the real executable; bytes, exit status and stdout emptiness are compared with the library result for the documented defaults.",
     note="Trusted: the library (its own properties are C01-C19) as oracle for the wrapper; tzdata in the sandbox.",
     design="3/C20"),
+  "C15": dict(
+    technique="bounded-exhaustive explicit-state enumeration of AST documents; list output vs reference regions, plus a model-free list<->clean link and purity re-execution",
+    text="For every G-ast tree within the C15 restrictions the Ready items of list (JSON and pretty) must correspond one-to-one and in order to the reference regions (count, first/last line, highlighted text); independently of the model, cutting the listed regions (located only by their line range and marker columns) out of the source must give clean's non-whitespace text; list is re-executed (twice, and around a clean on the same Rc<String>) to assert purity.",
+    note="Trusted: the pretty/JSON parsers of the harness and the reference regions (validated by construction in C02). ASCII delimiters only (marker columns are defined for ASCII text left of the marker).",
+    design="3/C15"),
+  "C16": dict(
+    technique="bounded-exhaustive explicit-state enumeration (AST documents + every column prefix over {space, tab, letter} x line-number-width contexts); rendered items vs a reference renderer written from the statement",
+    text="Every item of list and list_all is checked for JSON shape, numbering, status word, pretty-minus-colours == JSON block, and the block text is compared with a reference renderer (marker columns with tab = 4, numbered lines, tabs as four spaces) for regions starting and ending at every column with space/tab/mixed prefixes, single- and multi-line regions, 1-, 2- and 3-digit line numbers, and files whose first byte is a line break.",
+    note="Trusted: the 20-line reference renderer. Only regions with ASCII text left of both markers are compared, as the statement says.",
+    design="3/C16"),
+  "C17": dict(
+    technique="bounded-exhaustive explicit-state enumeration of AST documents with pending/ready/skip/unregistered/un-unwrappable parents and children; list_all vs reference region forest",
+    text="For every tree of the C17 projection (up to four pending siblings per parent within the line budget, both strategies, nesting to depth 2-3) the (first line, last line, status) sequence of list_all must equal the reference: all Ready regions plus the outstanding Pending regions, nested ones dropped, in source order; and the Ready items must be identical to the plain list.",
+    note="Trusted: refmodel::regions (40 lines).",
+    design="3/C17"),
+  "C18": dict(
+    technique="bounded-exhaustive explicit-state enumeration of AST documents x every spelling of the delimiter and tag-name pools; relational (metamorphic) oracle against a baseline spelling on clean, list and list_all",
+    text="Every G-ast tree is rendered under each spelling (13 delimiter pairs incl. multi-byte, identical, regex-special and interior-space ones x 4 tag-name pairs); the baseline's clean output with every surviving tag re-spelled must equal the clean output under the spelling, and the list / list_all (line range, status) sequences must be equal. Transitivity decides all ordered pairs.",
+    note="Trusted: the re-spelling function (reference tokenizer + first-word rename). Text uses letters, digits and spaces only so that delimiter characters occur only in tags, as the statement requires.",
+    design="3/C18"),
+  "C19": dict(
+    technique="explicit-state breadth-first search over the history graph (states = (text, last configuration), edges = real clean with a larger-or-equal configuration), invariants evaluated in every state",
+    text="From every G-ast document with expiry times T1<T2<T3 and marker names a, b, all histories of up to L cleaning steps with non-decreasing times and growing target sets are explored with deduplication on (text, configuration); every reached state must be a fixed point of its configuration (exact), equal up to whitespace to the one-shot result, and free of tags of ready elements.",
+    note="Trusted: the BFS (60 lines). Bounded by document size, L (3 quick, 4 thorough) and the 4 x 3 configuration lattice.",
+    design="3/C19"),
 }
 
 PENDING_REASON = "check designed (DESIGN.md section 3) but its engine is not built yet in this revision; not claimed until it runs"
